@@ -222,4 +222,45 @@ def texts (rv : Resolver) : List Tok → Str
   | .close t :: r => (match rv t with | .unknown => (Tok.close t).lit | _ => []) ++ texts rv r
   | .closeAny :: r => texts rv r
 
+/-! ## Deciders for the hypotheses of the message theorems (Props/C11)
+
+Evaluated by the driver on every generated message with the resolver pastel itself supplied
+(`c11.render` / `c11.write`, answer field `wf`) and compared with `true`. -/
+
+/-- stack parser for "balanced style tags": `stk` holds the styles opened and not yet closed
+(head = innermost).  Text and tags that are no styles are skipped; a closing style tag must equal
+the innermost open style; `</>` closes the innermost open style; nothing may stay open. -/
+def balancedAux (rv : Resolver) : Stack → List Tok → Bool
+  | stk, [] => stk.isEmpty
+  | stk, .text _ :: r => balancedAux rv stk r
+  | stk, .open t :: r =>
+    match rv t with
+    | .unknown => balancedAux rv stk r
+    | .style p => balancedAux rv (p :: stk) r
+    | .invalid => false
+  | stk, .close t :: r =>
+    match rv t with
+    | .unknown => balancedAux rv stk r
+    | .style p' =>
+      match stk with
+      | p :: stk' => p'.eqv p && balancedAux rv stk' r
+      | [] => false
+    | .invalid => false
+  | stk, .closeAny :: r =>
+    match stk with
+    | _ :: stk' => balancedAux rv stk' r
+    | [] => false
+
+/-- decides `Balanced rv toks` (Lemmas/C11Balanced: `balancedB_iff`) -/
+def balancedB (rv : Resolver) (toks : List Tok) : Bool := balancedAux rv [] toks
+
+/-- the message contains neither an escape byte nor a backslash -/
+def cleanB (msg : Str) : Bool := !msg.contains ESC && !msg.contains '\\'
+
+/-- the pieces `colorize` styles one by one -/
+def pieces (msg : Str) : List Tok := seg (lastOr ' ' msg) (lex msg)
+
+/-- all three hypotheses of `Props.C11.message_balanced` -/
+def messageOkB (rv : Resolver) (msg : Str) : Bool := cleanB msg && balancedB rv (pieces msg)
+
 end Clikit.Markup
